@@ -46,7 +46,13 @@
 #include <ompl/geometric/planners/cforest/CForest.h>
 #include <ompl/geometric/planners/AnytimePathShortening.h>
 
+#include <ompl/multilevel/planners/qmp/QMP.h>
+#include <ompl/multilevel/planners/qmp/QMPStar.h>
+#include <ompl/multilevel/planners/qrrt/QRRT.h>
+#include <ompl/multilevel/planners/qrrt/QRRTStar.h>
+
 namespace og = ompl::geometric;
+namespace om = ompl::multilevel;
 
 namespace planners
 {
@@ -101,6 +107,15 @@ namespace planners
             ob::PlannerPtr (*make)(const ob::SpaceInformationPtr &);
             void (*nn)(ob::Planner *, const std::string &);
         };
+        template <class P>
+        ob::PlannerPtr mkML(const ob::SpaceInformationPtr &si)
+        {
+            return std::make_shared<P>(si);  // non-multilevel mode: one space, no projection
+        }
+        void noNN(ob::Planner *, const std::string &)
+        {
+        }
+#define EM(P) Entry{Info{#P, false, false, false, false, true}, &mkML<om::P>, &noNN}
 #define E(P, threaded, pairwise, eager) Entry{Info{#P, threaded, pairwise, eager, false}, &mk<og::P>, &nnOf<og::P>}
         // pairwise: planner assembles the reported path only from (a,b) pairs it validated with checkMotion(a,b)
         //   in that orientation or the reverse for symmetric spaces (decided by reading each planner); a planner
@@ -126,6 +141,8 @@ namespace planners
                 E(STRIDE, false, false, false),       E(PDST, false, false, false),
                 E(SST, false, true, false),          E(RLRT, false, false, false),
                 E(BiRLRT, false, false, false),
+                EM(QRRT),                            EM(QRRTStar),
+                EM(QMP),                             EM(QMPStar),
                 // threaded / wall-clock planners: only under the scheduler
                 E(pRRT, true, true, false),          E(pSBL, true, true, false),
                 E(PRM, true, true, false),           E(PRMstar, true, true, false),
@@ -156,6 +173,18 @@ namespace planners
         for (auto &e : table())
             if (e.info.name == name)
                 return e.make(si);
+        return nullptr;
+    }
+    ob::PlannerPtr makeMultilevel(const std::string &name, std::vector<ob::SpaceInformationPtr> &siVec)
+    {
+        if (name == "QRRT")
+            return std::make_shared<om::QRRT>(siVec);
+        if (name == "QRRTStar")
+            return std::make_shared<om::QRRTStar>(siVec);
+        if (name == "QMP")
+            return std::make_shared<om::QMP>(siVec);
+        if (name == "QMPStar")
+            return std::make_shared<om::QMPStar>(siVec);
         return nullptr;
     }
     void applyNearestNeighbors(const std::string &name, ob::Planner *p, const std::string &nn)
